@@ -26,7 +26,7 @@ def run(fw):
         'h_printed_int': dict(unwind=13, rules=vfw.std_rules(string=13)),
     }
     roots = ROOTS if fw.tier == 'thorough' else [r for r in ROOTS if r != 'h_units_scaling_prefix']
-    to = 900 if fw.tier == 'quick' else 3000
+    to = 900 if fw.tier == 'quick' else 2400
 
     def ob(root):
         c = cfg[root]
